@@ -15,6 +15,15 @@ pub fn check_get(n0: usize, n1: usize, which: usize, k: usize) {
     let item = r.index(idx);
     vassert!(item.len() == n, "VF:slice_get.len");
     vassert!(item.is_empty() == (n == 0), "VF:slice_get.is_empty");
+    // iteration agrees with get / len, also when stepping past the end of *this* item (C13)
+    let nth = item.iter().nth(k);
+    vassert!(nth == if k < n { Some(exp[k]) } else { None }, "VF:slice_get.iter_nth");
+    vassert!(item.iter().count() == n, "VF:slice_get.iter_count");
+    if k <= 4 {
+        vassert!(item.iter().skip(k).count() == n.saturating_sub(k), "VF:slice_get.iter_skip");
+        vassert!(item.iter().step_by(k + 1).count() == (n + k) / (k + 1), "VF:slice_get.iter_step_by");
+    }
+    vassert!(item.iter().last() == if n > 0 { Some(exp[n - 1]) } else { None }, "VF:slice_get.iter_last");
     vcover!(k >= n, "out-of-bounds position reachable");
     let v = item.get(k); // must panic for k >= n
     vassert!(k < n, "VF:slice_get.returned_out_of_bounds");
@@ -27,6 +36,8 @@ pub fn check_get_owned(n: usize, k: usize) {
     let owned: Vec<u8> = A[..n].to_vec();
     let item = <<SliceRegion<MirrorRegion<u8>> as Region>::ReadItem<'_> as IntoOwned>::borrow_as(&owned);
     vassert!(item.len() == n, "VF:slice_get_owned.len");
+    vassert!(item.iter().nth(k) == if k < n { Some(A[k]) } else { None }, "VF:slice_get_owned.iter_nth");
+    vassert!(item.iter().count() == n, "VF:slice_get_owned.iter_count");
     let v = item.get(k);
     vassert!(k < n, "VF:slice_get_owned.returned_out_of_bounds");
     vassert!(v == A[k], "VF:slice_get_owned.value");
